@@ -215,7 +215,8 @@ def scbuiltin_inner(wrapper):
             c = cell.cell_contents
         except ValueError:
             continue
-        if inspect.isfunction(c) and c.__name__ == wrapper.__name__:
+        if inspect.isfunction(c) and c is not wrapper and \
+           c.__name__ == wrapper.__name__:
             return c
     return None
 
@@ -490,7 +491,7 @@ def model(e, env):
         return model_leaf(e, env)
     row = TABLE[e['op']]
     args = [model(a, env) for a in e['args']]
-    if row.src == 'm':      # omitted arguments take the method's defaults
+    if e['form'] == 'method':   # omitted arguments: the method's defaults
         for pname, _ in row.params[len(args) - 1:]:
             args.append(row.defaults[pname])
     return M.lift(row.oracle, args)
@@ -870,6 +871,68 @@ def lift_case(draw):
 
 
 # ===========================================================================
+# table stage: every operator row x spelling x receiver kind, fixed operands
+# ===========================================================================
+
+FIXED = [
+    {'fn': {'k': 'fn', 'm': 2, 'c': 1, 'nargs': 1},
+     'st': {'k': 'st', 'impl': 'routine', 'vals': [1, 2, 3]},
+     'pat': {'k': 'pat', 'impl': 'pseq', 'vals': [2, 5]},
+     'lst': {'k': 'lst', 'top': 'chl',
+             'items': [1, ['l', [2, ['t', [3, 4]]]], 5]},
+     'opd': {'k': 'opd', 'cls': 'Operand', 'v': 3},
+     'nums': [2, 1, 3, 4, 5, 6, 7], 'x': 3},
+    {'fn': {'k': 'fn', 'm': 0.5, 'c': -0.25, 'nargs': 1},
+     'st': {'k': 'st', 'impl': 'fstream', 'vals': [0.5, -1.5]},
+     'pat': {'k': 'pat', 'impl': 'deco', 'vals': [0.25, 3.0, -2.0]},
+     'lst': {'k': 'lst', 'top': 'ap', 'items': [0.5, ['t', [1.5, -2.0]]]},
+     'opd': {'k': 'opd', 'cls': 'Rest', 'v': 0.75},
+     'nums': [0.5, 0.25, 2.0, 1.5, 4.0, 3.0, 8.0], 'x': 1.5},
+]
+EXHAUSTIVE_SCOPE = (
+    'table stage: every row of the introspected operator table x every '
+    'spelling of the row (method / Python operator / number on the left / '
+    'builtins function) x every receiver kind that does not override the '
+    'name x 2 fixed operand sets (ints, dyadic floats), other operands plain '
+    'numbers, optional arguments once omitted and once given')
+
+
+def table_cases(ctx):
+    k = 0
+    for key in ROWS:
+        row = TABLE[key]
+        for form in row.forms:
+            for kind in KINDS:
+                if blocked(row, kind):
+                    continue
+                for fi, fx in enumerate(FIXED):
+                    nums = [{'k': 'num', 'v': n} for n in fx['nums']]
+                    for nextra in sorted({row.nreq, row.nreq + row.nopt}):
+                        extra = []
+                        for i in range(nextra):
+                            if row.params[i][0] == 'clip' and \
+                               row.arity == 'nar':
+                                extra.append({'k': 'lit',
+                                              'v': CLIPMODES[(k + i) % 4]})
+                            else:
+                                extra.append(nums[i])
+                        if form == 'rdunder':
+                            if nextra != 1:
+                                continue
+                            args = [extra[0], fx[kind]]
+                        else:
+                            args = [fx[kind]] + extra
+                        k += 1
+                        if k % ctx.nshards != ctx.shard:
+                            continue
+                        yield {'expr': {'k': 'op', 'op': key, 'form': form,
+                                        'args': args},
+                               'x': fx['x'],
+                               'pmode': ['stream', 'iter', 'embed'][k % 3],
+                               'seed': 1}
+
+
+# ===========================================================================
 # laws
 # ===========================================================================
 
@@ -967,8 +1030,11 @@ def run_law(case, v):
     elif law == 'mod':
         x, b = a
         r = bi.mod(x, b)
-        v.check(r >= 0, 'mod_negative', lambda: info(r))
-        v.check(r < b if exact else r <= b, 'mod_not_below_modulus',
+        # exact on dyadic arguments; elsewhere a - b*floor(a/b) may miss by
+        # a rounding error of the size of an ulp of a (mod(63693.0, 1.8) =
+        # -7.3e-12), which the stated tolerance absorbs
+        v.check(r >= -tol, 'mod_negative', lambda: info(r))
+        v.check(r < b if exact else r <= b + tol, 'mod_not_below_modulus',
                 lambda: info(r))
         if exact and not v.items:
             v.check(M.is_multiple(Fraction(x) - Fraction(r), b),
@@ -1021,9 +1087,8 @@ FLAVOURS = {  # receiver kind, argument kind
 
 def conv(val, kind):
     """A boundary value computed from the arguments, as receiver kind."""
-    if kind == 'i':
-        return int(math.floor(val)) if val == val and abs(val) < 2 ** 62 \
-            else 0
+    if kind == 'i':     # ints stay inside int32
+        return int(max(-2.0 ** 31, min(2.0 ** 31 - 1, math.floor(val))))
     return float(val)
 
 
@@ -1097,7 +1162,8 @@ def law_case(draw):
         q = draw(pos(None, ak))
         x = draw(law_pool(rk))
         if draw(st.integers(0, 99)) < 40:
-            k = draw(st.integers(-9, 9))
+            k = draw(st.one_of(st.integers(-9, 9), st.integers(-9, 9),
+                               st.integers(-2000, 2000)))
             boundary, val = draw(st.sampled_from([
                 ('multiple', k * q), ('tie', k * q + q / 2),
                 ('just_above', k * q + q / 8), ('just_below', k * q - q / 8),
@@ -1154,7 +1220,7 @@ def classify_known(stage, case, viol):
             if got == trunc and _holds(law, [float(a[0])] + a[1:]):
                 return 'int_receiver_truncates_float_args'
         return None
-    if stage == 'lift':
+    if stage in ('lift', 'table'):
         root = case['expr']
         row = TABLE.get(root['op'])
         clause = kind.split(':')[0]
@@ -1187,6 +1253,7 @@ def classify_known(stage, case, viol):
 
 def stages(ctx):
     return [
+        Stage('table', run_lift, cases=table_cases, exhaustive=True),
         Stage('lift', run_lift, lift_case(), quick=2000, thorough=40000),
         Stage('laws', run_law, law_case(), quick=2500, thorough=40000),
     ]
